@@ -229,7 +229,10 @@ PROPS = {
              "dyadic size / gap / position in every combination (quick 500, thorough 20000). spec verdict = frame and image "
              "attributes parsed to exact rationals: square, centred on symbol or on the requested position, integer edges, "
              "5b < 2n, clear of finder areas, image centred and no larger, requested size / gap honoured up to the 1-module "
-             "parity adjustment. distinct = (version, margin, frame shape, which overrides).",
+             "parity adjustment. The raster path (ImageBuilder -> SvgBuilder -> resvg, 8 px per module) is covered by `pixframe`: the "
+             "bounding box of the frame colour in the pixmap is square, centred on the requested position (or the symbol) and "
+             "agrees with the model frame to a quarter module (40 quick / 400 thorough). "
+             "distinct = (version, margin, frame shape, which overrides).",
         exhaustive_quick=True, exhaustive_thorough=True,
         trusted=["hand model of SvgBuilder::image tied by exact-string correspondence on dyadic inputs"],
         assumptions=["IEEE-754 rounding and Rust float formatting are not modelled: floats are exact dyadics; generated overrides are dyadics with <= 3 fractional bits"]),
